@@ -257,9 +257,12 @@ def eval_replace(state, arg):
             for _ in range(rng.choice([1, 1, 2, 3])):
                 if all_st and rng.random() < 0.85:
                     s = rng.choice(all_st)
-                    i = rng.randrange(len(s))
-                    j = rng.randint(i + 1, len(s))
-                    old = s[i:j]
+                    if rng.random() < 0.25:
+                        old = s                      # the needle is the whole stretch
+                    else:
+                        i = rng.randrange(len(s))
+                        j = rng.randint(i + 1, len(s))
+                        old = s[i:j]
                 else:
                     old = rng.choice(["zzzz", "not there", "@@"])
                 new = rng.choice(["", "X", "new text", "a\nb", "1\n2\n3", "<&>", old + old, "é"])
